@@ -636,7 +636,6 @@ edn_value_t* edn_parse_text_block(edn_parser_t* parser) {
     }
 
     size_t total_len = 0;
-    bool any_escapes = false;
 
     for (size_t i = 0; i < line_count; i++) {
         text_block_line_t* line = lines[i];
@@ -656,9 +655,9 @@ edn_value_t* edn_parse_text_block(edn_parser_t* parser) {
             /* Calculate leading whitespace and how much remains after stripping lwp */
             ws_prefix = line->content_start - line->line_start;
         } else {
-            /* Blank line - no content to trim */
+            /* Blank line - its whitespace is all trailing, nothing is copied */
             trimmed_content_length = 0;
-            ws_prefix = line->line_length; /* All whitespace */
+            ws_prefix = 0;
         }
 
         /* Calculate remaining whitespace after stripping minimum indentation */
@@ -670,11 +669,6 @@ edn_value_t* edn_parse_text_block(edn_parser_t* parser) {
         /* Add newline if this line ends with \n */
         if (line->has_newline) {
             total_len++;
-        }
-
-        /* Track if any line needs escape processing */
-        if (line->needs_escaping) {
-            any_escapes = true;
         }
     }
 
@@ -774,13 +768,21 @@ edn_value_t* edn_parse_text_block(edn_parser_t* parser) {
         return NULL;
     }
 
+    /* total_len is an upper bound (an escaped \"\"\" shrinks by one byte); the
+     * string is exactly what was written */
+    size_t result_len = (size_t) (dst - result);
+
     value->type = EDN_TYPE_STRING;
     value->as.string.data = result;
-    edn_string_set_length(value, total_len);
-    edn_string_set_has_escapes(value, any_escapes);
+    value->as.string.length_and_flags = 0;
+    edn_string_set_length(value, result_len);
+    /* The stored bytes are the final content: nothing is left to decode */
+    edn_string_set_has_escapes(value, false);
     value->as.string.decoded = result; /* Text blocks are already decoded */
-    value->as.string.decoded_length = (size_t) (dst - result);
+    value->as.string.decoded_length = result_len;
     value->arena = parser->arena;
+    value->source_start = value_start - parser->input;
+    value->source_end = parser->current - parser->input;
 
     return value;
 }
